@@ -1,12 +1,13 @@
 /-
-The character-level print → parse theorem with both quote characters.  `_quoted(value)` writes a value holding a
-double quote between single quotes (repo fix 3046ca3); the grammar reads `'…'` as SINGLE_QUOTED_STRING
-(`/'([^'])*'/`: anything but a single quote, no escapes) and `"…"` as ESCAPED_STRING.  A value is writable when it
-holds no `"`, `\`, newline (double quotes) or holds a `"` and no `'` (single quotes; `\` and newlines are then
-harmless).  Not writable, with the reason: a value holding both quote characters (no quoting of the grammar can
-carry it: there are no escapes in SINGLE_QUOTED_STRING and `_quoted` does not escape), and a value without `"` that
-holds `\` or a newline (written in double quotes, where ESCAPED_STRING reads `\"` as an escaped quote and `.` does not
-match a newline).
+The character-level print → parse theorem with both quote characters.  `_quoted(value)` writes a value that holds a
+double quote or a backslash and no single quote between single quotes (repo fixes 3046ca3, 7b51c5a); the grammar
+reads `'…'` as SINGLE_QUOTED_STRING (`/'([^'])*'/`: anything but a single quote, no escapes) and `"…"` as
+ESCAPED_STRING.  A value is writable when it holds no `"`, `\`, newline (double quotes) or holds a `"` or a `\` and no
+`'` (single quotes; newlines are then harmless).  Not writable, with the reason: a value holding a single quote
+together with a `"` or a `\` (no quoting of the grammar can carry both quote characters: there are no escapes in
+SINGLE_QUOTED_STRING and `_quoted` does not escape; with `'` and `\` it is written in double quotes, where
+ESCAPED_STRING reads `\"` as an escaped quote), and a value without `"` and `\` that holds a newline (written in
+double quotes, where `.` does not match a newline).
 -/
 import PoetryVerif.Proofs.MarkerPrintChars
 
@@ -17,7 +18,8 @@ namespace Poetry.Marker
 open Poetry
 
 /-- a value `_quoted` can write so that the grammar reads it back -/
-def ValOkQ (v : String) : Prop := ValOk v ∨ ('"' ∈ v.toList ∧ ∀ c ∈ v.toList, c ≠ '\'')
+def ValOkQ (v : String) : Prop :=
+  ValOk v ∨ (('"' ∈ v.toList ∨ '\\' ∈ v.toList) ∧ ∀ c ∈ v.toList, c ≠ '\'')
 
 /-- the quote character `_quoted` uses -/
 def qch (v : String) : Char :=
@@ -56,7 +58,10 @@ theorem markerValue_q (v : String) (rest : List Char) (h : ValOkQ v) :
     rw [hq, markerValue_dq v.toList rest h, String.ofList_toList]
   · have hq : qch v = '\'' := by
       unfold qch
-      have h1 : v.toList.contains '"' = true := List.contains_iff_mem.mpr hd
+      have h1 : (v.toList.contains '"' || v.toList.contains '\\') = true := by
+        rcases hd with hd | hd
+        · rw [List.contains_iff_mem.mpr hd]; rfl
+        · rw [List.contains_iff_mem.mpr hd]; simp
       have h2 : v.toList.contains '\'' = false := by
         cases hc : v.toList.contains '\'' with
         | false => rfl
